@@ -35,6 +35,13 @@ from mc.models import series_contract as SC
 
 FAMILIES = {}
 
+# Optional diagnostic OUTSIDE the claim (default off): run the instruments also as USER subclasses overriding
+# default_init_state.  For the built-in instruments the generator's own default IS the documented default, so whether
+# simulate() substitutes the default itself or forwards None to the generator is an internal dispatch detail the
+# property does not speak about; a user subclass makes that detail visible and would flag behaviour-preserving
+# refactorings.
+USER_SUBCLASS_WORLDS = os.environ.get("VERIF_USER_SUBCLASS") == "1"
+
 
 def family(fn):
     FAMILIES[fn.__name__] = fn
@@ -1127,7 +1134,7 @@ def _init_forms(ctx, kind, name):
     # bare scalars (not wrapped in a tuple): cast_state and the generators' documentation accept them, and every
     # single-series instrument passes init_state through unchanged.  A zero initial state (falsy!) is admissible
     # for the series that are not exponential-type prices.
-    if kind == "inst":
+    if kind == "inst" and USER_SUBCLASS_WORLDS:
         forms.append(("subclass", INIT_VALUES[gen][0]))
     single = len(INIT_VALUES[gen][0]) == 1
     if single and (kind == "inst" or SC.GENERATORS[gen]["bare"]):
